@@ -1582,6 +1582,11 @@ func TestOperationIsolation(c *fluent.GRIBIClient, t testing.TB, opts ...TestOpt
 	clientB.Start(context.Background(), t)
 	defer clientB.Stop(t)
 	clientB.StartSending(context.Background(), t)
+	// clientB must be connected to the server before clientA's operations are
+	// processed, otherwise there is no second client that results could leak to.
+	if err := awaitTimeout(context.Background(), clientB, t, time.Minute); err != nil {
+		t.Fatalf("got unexpected error from clientB, got: %v", err)
+	}
 
 	entries := []fluent.GRIBIEntry{
 		fluent.NextHopEntry().
@@ -1599,8 +1604,19 @@ func TestOperationIsolation(c *fluent.GRIBIClient, t testing.TB, opts ...TestOpt
 	}
 
 	clientA.Modify().AddEntry(t, entries...)
+	// Wait for the server to have answered clientA's operations: stopping clientA
+	// straight away can end its session before the operations were processed, in
+	// which case there are no results that could be sent to clientB.
+	if err := awaitTimeout(context.Background(), clientA, t, time.Minute); err != nil {
+		t.Fatalf("got unexpected error from clientA, got: %v", err)
+	}
 	clientA.Stop(t)
 
+	// clientB re-announces its (lower) election ID. The response to it is sent on
+	// clientB's stream after anything that the server sent there while it processed
+	// clientA's operations, such that a result that was wrongly sent to clientB has
+	// been received - and recorded as an error - by the time that clientB converges.
+	clientB.Modify().UpdateElectionID(t, electionID.Load(), 0)
 	clientBErr := awaitTimeout(context.Background(), clientB, t, time.Minute)
 	chk.HasNRecvErrors(t, clientBErr, 0)
 	chk.HasNSendErrors(t, clientBErr, 0)
